@@ -65,6 +65,12 @@ def _ownership(repo: Repo, rep: Report) -> None:
                       "the stores in which a builder keeps compiled helpers / names are trusted to belong to one builder (or one codec): binding one to a module-level or class-level "
                       "container makes every later builder reuse what an earlier one compiled under other options (dialect, no_copy_collections, format)",
                       loc=f"{fi.loc.split(':')[0]}:{ln}")
+    oka, bada = ownership.param_attr_stores(repo)
+    rep.ok("R14.8", f"{oka} attribute stores on parameter objects happen after the parameter was rebound to a fresh object, or follow a listed hand-over protocol", None)
+    for fi, txt, ln in bada:
+        rep.violation("R14.8", fi.key, f"attribute store on the caller's object: `{txt}`",
+                      "per-call settings written into an object supplied by the caller stick for the caller's later calls: results depend on the call history",
+                      loc=f"{fi.loc.split(':')[0]}:{ln}")
     for fi, base, txt, ln in borrowed:
         rep.violation("R14.8", fi.key, f"in-place write to `{base}`, which {fi.qualname} does not own",
                       "the object is borrowed from a caller (class-level builder parameters shared by every dataclass of a mixin, Config / Dialect attributes, "
